@@ -53,9 +53,7 @@ var validatorRoots = []string{
 	// parser-side guards (pure functions of lengths, counts and type codes)
 	"offline_signature.validateMinimumOfflineSignatureData",
 	"offline_signature.validateTransientKeyType",
-	"offline_signature.validateTransientKeyData",
 	"offline_signature.validateDestinationSignatureType",
-	"offline_signature.validateSignatureData",
 	"meta_leaseset.validateMinSize",
 	"meta_leaseset.validateHeaderDataSize",
 	"meta_leaseset.validateEntryCount",
